@@ -18,6 +18,18 @@ def run_calls(run, params, batch=4000, sig_fn=sig_call, nontrivial=lambda rec: T
         rec = calls.execute(p)
         recs.append(rec)
         run.note_case(json.dumps(p, sort_keys=True, default=str), nontrivial(rec))
+    # history independence: the helpers are functions of their arguments.  A seeded sample of the calls is made again,
+    # in shuffled order, in the same process (after every other call has happened) and judged like the first time.
+    if len(params) > 1 and not getattr(run, "is_replay", False):
+        from ..common import rng
+
+        r = rng("again-" + str(len(params)))
+        again = r.sample(list(params), min(len(params), max(50, len(params) // 5), 800))
+        for p in again:
+            rec = calls.execute(p)
+            rec["id"] = str(rec.get("id")) + " (again)"
+            recs.append(rec)
+        run.extra["calls_repeated_in_shuffled_order"] = run.extra.get("calls_repeated_in_shuffled_order", 0) + len(again)
     for k in range(0, len(recs), batch):
         chunk = recs[k : k + batch]
         payload = {"calls": [{k2: v for k2, v in c.items() if k2 != "re"} for c in chunk], "expect_judged": len(chunk)}
